@@ -271,6 +271,7 @@ def observe_source(source, sheet):
     try:
         for r in rowio.ods_rows(source, sheet):
             rows.append(list(r))
+            r.append("mine now")        # a row that was handed out belongs to the consumer: changing it changes nothing else
         return {"rows": rows, "failed": False}
     except errors.DataFormatError as e:
         return {"rows": rows, "failed": True, "msg": str(e)[:100]}
